@@ -82,21 +82,20 @@ func lexImportStart(l *lexer) lexFn {
 }
 
 func lexImports(l *lexer) lexFn {
-	for {
-		l.skipRun(" \t\n\r")
-		switch l.peek() {
-		case ')':
-			l.skipRun(")\n\r")
-			return lexGoLineStart
-		case scanner.EOF:
+	l.skipRun(" \t\n\r")
+	switch l.peek() {
+	case ')':
+		l.skipRun(")\n\r")
+		return lexGoLineStart
+	case scanner.EOF:
+		return l.errorf("import expected")
+	default:
+		l.acceptUntil("\n\r")
+		if l.current() == "" {
 			return l.errorf("import expected")
-		default:
-			l.acceptUntil("\n\r")
-			if l.current() == "" {
-				return l.errorf("import expected")
-			}
-			l.emit(tImport)
 		}
+		l.emit(tImport)
+		return lexImports
 	}
 }
 
